@@ -20,6 +20,7 @@ import oracles as O  # noqa: E402
 import runimpl as R  # noqa: E402
 import runmodel as M  # noqa: E402
 import drive as D  # noqa: E402
+import freshcert as F  # noqa: E402
 
 PRED = {'live': 0, 'outcome': 1, 'counts': 2, 'kwargs': 3, 'saves': 4, 'events': 5, 'quiesce': 6, 'c06': 7}
 BY_PROP = {
@@ -34,6 +35,22 @@ PROFILES = {
 DEFAULT_PROFILES = ['plain', 'switch', 'oneof', 'mixed', 'rec']
 
 
+def do_cert(st, certs, broken, spec, corders, cdescs, tag, frag, states, total):
+    c = F.certify(spec, corders, cdescs, tag)
+    st['fresh_certificates_attempted'] += 1
+    certs.append(dict(nodes=[[nd['params'], nd['beh'], nd['fails'], nd['mode']] for nd in spec['nodes']], managers=spec['managers'],
+                      store=spec['store'], fragment=frag, states=states, transitions=total, coqc_seconds=c['seconds'], ok=c['ok']))
+    if c['ok']:
+        st['fresh_certificates_checked'] += 1
+        st['fresh_certificate_states'] += states
+    elif c.get('timeout'):
+        st['fresh_certificates_timed_out'] += 1
+    else:
+        broken.append(dict(diffs=['fresh certificate: the kernel does not accept certify = true for a generated program that the '
+                                  'extracted explorer accepts: ' + c.get('error', '')[-300:]],
+                           spec=spec, actions=[], coq_source=c.get('source', ''), hashseed=os.environ.get('PYTHONHASHSEED')))
+
+
 def main():
     prop, seed, tier, shard, nshards = sys.argv[1], int(sys.argv[2]), sys.argv[3], int(sys.argv[4]), int(sys.argv[5])
     rng = random.Random(seed * 7919 + shard)
@@ -45,6 +62,11 @@ def main():
     budget = 12 if tier == 'quick' else 600
     max_states = 2500 if tier == 'quick' else 12000
     preds = BY_PROP.get(prop, ['live'])
+    # fresh certificates (harness/freshcert.py): kernel-checked all-schedule theorems for programs generated in this run
+    cert_quota = (1 if shard == 0 else 0) if tier == 'quick' else 2
+    cert_states = (40, 500) if tier == 'quick' else (60, 2500)
+    certs = []
+    deferred = []
     profs = PROFILES.get(prop, DEFAULT_PROFILES)
     while time.time() - t0 < budget:
         prof = rng.choice(profs)
@@ -105,17 +127,51 @@ def main():
                 st['violations'] += 1
                 continue
         # (b) every transition against the real engine
-        n, bad, total = D.drive_all(model, spec, tag + 'd', st)
+        seen = {}
+        n, bad, total = D.drive_all(model, spec, tag + 'd', st, collect=seen)
         for bk in bad:
             st['disagree'] += 1
             if len(broken) < 4:
                 broken.append(dict(bk, diffs=['generated program, exhaustive correspondence: ' + x for x in bk['diffs']],
                                    hashseed=os.environ.get('PYTHONHASHSEED')))
         paths = [None] * total
+        if (cert_quota > 0 and not bad and unsafe is None and cert_states[0] <= states <= cert_states[1]
+                and not any(fl.get(f['trigger']) for f in json.load(open(os.path.join(HERE, '..', 'known_findings.json')))['findings'])):
+            # pre-filter with the extracted explorer on ALL predicates (safe_full); the kernel then re-does the exploration
+            allsafe = True
+            for pn, code in PRED.items():
+                if pn in preds or (pn == 'c06' and not fl['Plain']):
+                    continue
+                res = model.ask(M.sx(['modelcheck'] + fields + [['wc', 1], ['pred', code], ['limit', max_states * 8]]))
+                if res.get('states') is None or res['unsafe'] is not None:
+                    allsafe = False
+            # the certificate is about the program WITH the orders of the real chart: the union of every order the engine used on any
+            # driven path; under that table the explorer must produce the very set of paths that was driven (else no certificate)
+            corders, cdescs = orders + seen.get('orders', []), dict(descs, **seen.get('descs', {}))
+            if allsafe:
+                cfields, amb = D.oracle_fields(spec, corders, cdescs)
+                same = not amb and model.ask(M.sx(['paths'] + cfields + [['wc', 1]])).get('paths') == seen.get('paths')
+                if same:
+                    for pn, code in PRED.items():
+                        if pn == 'c06' and not fl['Plain']:
+                            continue
+                        res = model.ask(M.sx(['modelcheck'] + cfields + [['wc', 1], ['pred', code], ['limit', max_states * 8]]))
+                        same = same and res.get('states') is not None and res['unsafe'] is None
+                if not same:
+                    st['fresh_certificates_skipped_order_tables_differ'] += 1
+                    allsafe = False
+            if allsafe and frag == 'Plain' and not spec['managers'] and spec['store'] == 'none' and prop != 'C06' and not deferred:
+                deferred.append((spec, corders, cdescs, tag, frag, states, total))     # covered by the kind-F theorems: only if nothing else turns up
+                allsafe = False
+            if allsafe:
+                cert_quota -= 1
+                do_cert(st, certs, broken, spec, corders, cdescs, tag, frag, states, total)
         if len(samples) < 1:
             samples.append(dict(nodes=[[nd['params'], nd['beh'], nd['fails']] for nd in spec['nodes']], states=states, transitions=len(paths), fragment=frag))
+    if cert_quota > 0 and deferred and not certs:
+        do_cert(st, certs, broken, *deferred[0])
     model.close()
-    print(json.dumps(dict(stats=dict(st), violations=violations, k2_broken=broken, samples=samples, wall=time.time() - t0)))
+    print(json.dumps(dict(stats=dict(st), violations=violations, k2_broken=broken, samples=samples, certs=certs, wall=time.time() - t0)))
 
 
 if __name__ == '__main__':
